@@ -266,7 +266,9 @@ func (v *Verifier) tableFacts(fx *FnCtx, g *ssa.Global, val Value) {
 				name := arrHeapName(u.Elem(), lf)
 				h := fx.initialHeap(name, tc.heapSort(name, lf), lf)
 				fx.V.heapLeaves[name] = heapInfo{lf, tc.heapSort(name, lf)}
-				add(Eq(Select(Select(h, val.L[0]), tc.IdxNum(int64(i))), vals[k]))
+				if vals[k] != nil {
+					add(Eq(Select(Select(h, val.L[0]), tc.IdxNum(int64(i))), vals[k]))
+				}
 			}
 		}
 	case *types.Array:
@@ -277,13 +279,17 @@ func (v *Verifier) tableFacts(fx *FnCtx, g *ssa.Global, val Value) {
 		for i, e := range elems {
 			vals := fx.flattenJSON(u.Elem(), e, key)
 			for k := range vals {
-				add(Eq(Select(val.L[k], tc.IdxNum(int64(i))), vals[k]))
+				if vals[k] != nil {
+					add(Eq(Select(val.L[k], tc.IdxNum(int64(i))), vals[k]))
+				}
 			}
 		}
 	default:
 		vals := fx.flattenJSON(t, raw, key)
 		for k := range vals {
-			add(Eq(val.L[k], vals[k]))
+			if vals[k] != nil {
+				add(Eq(val.L[k], vals[k]))
+			}
 		}
 	}
 }
@@ -301,6 +307,13 @@ func (fx *FnCtx) flattenJSON(t types.Type, raw json.RawMessage, key string) []*T
 			return []*Term{tc.IntConst(n, t)}
 		case u.Info()&types.IsBoolean != 0:
 			return []*Term{Bool(strings.TrimSpace(string(raw)) == "true")}
+		case u.Info()&types.IsString != 0:
+			// only the length of a string entry is exported (nil = no fact for that leaf)
+			var str string
+			if err := json.Unmarshal(raw, &str); err != nil {
+				fx.fail("table %s: %v", key, err)
+			}
+			return []*Term{nil, nil, tc.IdxNum(int64(len(str)))}
 		}
 	case *types.Struct:
 		var m map[string]json.RawMessage
